@@ -45,6 +45,14 @@ impl Rng {
     }
     v
   }
+  pub fn bytes_in(&mut self, lo: usize, hi_incl: usize) -> Vec<u8> {
+    let n = self.range(lo, hi_incl);
+    self.bytes(n)
+  }
+  pub fn cuts_in(&mut self, len: usize, lo: usize, hi_incl: usize) -> Vec<usize> {
+    let n = self.range(lo, hi_incl);
+    self.cuts(len, n)
+  }
   pub fn shuffle<T>(&mut self, xs: &mut [T]) {
     for i in (1..xs.len()).rev() {
       let j = self.below((i + 1) as u64) as usize;
